@@ -293,9 +293,15 @@ class PropertiesTrait(TraitImpl, IProperties):
 				return instance
 
 		inherits = begin_types.inherits
+		# XXX 継承関係が循環している不正なソースでも探索が終了する様に、探索済みのクラスを記録
+		visited: list[defs.Class] = [begin_types]
 		while len(inherits) > 0:
 			inherit = self.reflections.type_of(inherits.pop(0))
 			inherit_types = inherit.types.as_a(defs.Class)
+			if inherit_types in visited:
+				continue
+
+			visited.append(inherit_types)
 			if prop_name in inherit_types.decl_this_vars:
 				return inherit
 
